@@ -119,7 +119,13 @@ class Gef:
             nm = e['path'].split('::')[-1] if e['path'] else e['akind']
             if e.get('variant'):
                 nm += '::' + e['variant']['name']
-            parts = [self.term(a, depth + 1, visiting) for a in v.args]
+            args_ = list(v.args)
+            priv = self.prog.private_tree_fields(e['path']) if e.get('path') and e.get('akind') == 'adt' else None
+            if priv:
+                fl = [f['name'] for f in self.prog.adts[e['path']]['variants'][0]['fields']]
+                if len(fl) == len(args_):
+                    args_ = [a for a, n_ in zip(args_, fl) if n_ not in priv]       # a field only this copy has
+            parts = [self.term(a, depth + 1, visiting) for a in args_]
             parts = [x for x in parts if x != 'default()' and not x.startswith('PhantomData')]      # zero-sized markers differ between copies by construction
             r = '%s{%s}' % (self.name(nm), ','.join(parts))
         elif k == 'phi':
@@ -464,8 +470,13 @@ class Gef:
         b = self.b
         cfg = b.cfg
         raw = []
+        priv = prog.private_tree_fields(self.fn.self_adt) if getattr(self, 'fn', None) is not None and self.fn.self_adt else set()
         for st in b.stores:
             if st.point[0] in cfg.reach:
+                if priv:
+                    fl = [p_ for p_ in st.path if p_ != '*' and isinstance(p_, str)]
+                    if fl and fl[0] in priv and strip(st.root).kind == 'param':
+                        continue        # bookkeeping in a field only this copy has: not part of what the copies share
                 raw.append((st.point, 'store', st, [st.root, st.value]))
         for c in b.calls:
             if c.point[0] in cfg.reach:
